@@ -217,7 +217,13 @@ class MakeEvolvable(EvolvableModule):
             else:
                 EvolvableModule.init_weights_gaussian(layer, std_coeff=output_coeff)
 
-    def forward(self, x: ArrayOrTensor, xc: ArrayOrTensor = None, q: bool = True):
+    def forward(
+        self,
+        x: ArrayOrTensor,
+        xc: ArrayOrTensor = None,
+        q: bool = True,
+        log: bool = False,
+    ):
         """Returns output of neural network.
 
         :param x: Neural network input
@@ -226,6 +232,8 @@ class MakeEvolvable(EvolvableModule):
         :type xc: torch.Tensor() or np.array, optional
         :param q: Return Q value if using rainbow, defaults to True
         :type q: bool, optional
+        :param log: Return log-probabilities of the atoms if using rainbow, defaults to False
+        :type log: bool, optional
         """
         if not isinstance(x, torch.Tensor):
             x = torch.FloatTensor(np.array(x))
@@ -261,12 +269,16 @@ class MakeEvolvable(EvolvableModule):
                 value = value.view(-1, 1, self.num_atoms)
                 advantage = advantage.view(-1, self.num_outputs, self.num_atoms)
                 x = value + advantage - advantage.mean(1, keepdim=True)
+                if log:
+                    return F.log_softmax(x, dim=-1)
                 x = F.softmax(x, dim=-1)
             else:
                 value = value.view(batch_size, 1, self.num_atoms)
                 advantage = advantage.view(batch_size, self.num_outputs, self.num_atoms)
 
                 x = value + advantage - advantage.mean(1, keepdim=True)
+                if log:
+                    return F.log_softmax(x, dim=-1)
                 x = F.softmax(x.view(-1, self.num_atoms), dim=-1).view(
                     -1, self.num_outputs, self.num_atoms
                 )
